@@ -30,7 +30,8 @@ PY = '/venv/bin/python'
 EPS = '1/1000000000'          # tolerance of DESIGN section 8 for float64 paths
 EPS_F = 1e-9
 MARGIN = 1e-7                 # a discrete decision is compared exactly only if its margin exceeds this
-JOB_TIMEOUT = 20.0            # seconds without an answer from a worker = the call does not return
+JOB_TIMEOUT = 10.0            # seconds without an answer from a worker = the call does not return
+MAX_TIMEOUTS = 6              # after that many calls that do not return, the remaining calls of the same entry point are skipped
 N_WORKERS = 8
 
 RULE = ('exhaustive directed graphs n<=3 (thorough: all undirected n=4 too; quick: sampled) with unequal weights x all seedings over '
@@ -324,17 +325,30 @@ def worker_main(overlay_root, jobs_path):
 # ------------------------------------------------------------------------------------------------
 # parent side: run jobs in workers, survive crashes and hangs
 # ------------------------------------------------------------------------------------------------
-def _run_shard(overlay_root, todo, results, tag):
+def _run_shard(overlay_root, todo, results, tag, budget):
     """todo: list of (i, job). Fills results[i]. Restarts the worker after a crash / time-out."""
     d = os.path.join(VERIF, '.cache', 'c13')
     os.makedirs(d, exist_ok=True)
     pos = 0
     rounds = 0
     while pos < len(todo):
+        # entry points that keep hanging are not called again (each hang costs JOB_TIMEOUT seconds)
+        if budget['timeouts'] >= MAX_TIMEOUTS:
+            while pos < len(todo) and job_sig(todo[pos][1])['entry'] in budget['entries']:
+                results[todo[pos][0]] = {'status': 'skipped'}
+                pos += 1
+            if pos >= len(todo):
+                break
         rounds += 1
         path = os.path.join(d, 'jobs_%s_%d_%d.jsonl' % (tag, os.getpid(), rounds))
+        stop_at = len(todo)
+        if budget['timeouts'] >= MAX_TIMEOUTS:
+            for q in range(pos, len(todo)):
+                if job_sig(todo[q][1])['entry'] in budget['entries']:
+                    stop_at = q
+                    break
         with open(path, 'w') as fh:
-            for i, job in todo[pos:]:
+            for i, job in todo[pos:stop_at]:
                 fh.write(json.dumps([i, job]) + '\n')
         env = dict(os.environ)
         env.setdefault('OMP_NUM_THREADS', '1')
@@ -370,14 +384,14 @@ def _run_shard(overlay_root, todo, results, tag):
             if p.poll() is None:
                 p.kill()
             p.wait()
-            if pos >= len(todo):
+            if pos >= stop_at:
                 for q in (path, path + '.err'):
                     try:
                         os.remove(q)
                     except OSError:
                         pass
-        if pos >= len(todo):
-            break
+        if pos >= stop_at:
+            continue
         if failed is None:
             failed = 'crash rc=%s' % p.returncode
         if current is None:
@@ -385,6 +399,9 @@ def _run_shard(overlay_root, todo, results, tag):
             from vlib.core import ToolFailure
             raise ToolFailure('C13 worker stopped outside a job (%s)' % failed)
         results[current] = {'status': 'timeout' if failed == 'timeout' else 'crash', 'detail': failed}
+        if failed == 'timeout':
+            budget['timeouts'] += 1
+            budget['entries'].add(job_sig(todo[pos][1])['entry'])
         pos += 1
 
 
@@ -396,8 +413,9 @@ def run_jobs(ctx, jobs):
     shards = [[] for _ in range(k)]
     for i, job in enumerate(jobs):
         shards[i % k].append((i, job))
+    budget = {'timeouts': 0, 'entries': set()}
     with concurrent.futures.ThreadPoolExecutor(max_workers=k) as ex:
-        futs = [ex.submit(_run_shard, root, sh, results, 's%d' % j) for j, sh in enumerate(shards) if sh]
+        futs = [ex.submit(_run_shard, root, sh, results, 's%d' % j, budget) for j, sh in enumerate(shards) if sh]
         for f in futs:
             f.result()
     return results
@@ -711,6 +729,9 @@ def run_and_evaluate(ctx, jobs):
         if res is None:
             from vlib.core import ToolFailure
             raise ToolFailure('C13: a job returned no result')
+        if res['status'] == 'skipped':
+            ctx.count('skipped-after-timeouts:' + job['kind'])
+            continue
         if res['status'] in ('crash', 'timeout'):
             sig = dict(job_sig(job), failure=res['status'])
             ctx.case(('fail', json.dumps(job, sort_keys=True)), True)
@@ -960,7 +981,7 @@ def run(ctx):
     Ties.skipped = 0
     jobs = corpus_jobs()
     ctx.count('corpus', len(jobs))
-    jobs += gen_jobs(ctx)
+    jobs += gen_jobs(ctx, scale=1.0 if ctx.quick else 3.0)
     run_and_evaluate(ctx, jobs)
 
 
